@@ -57,9 +57,8 @@ def extract(crate):
                 t.out_local = i
         if form == "direct":
             # join block: the block whose terminator calls ParseBuffer::is_empty
-            for blk, term in b.calls():
-                if fn_matches(term, r"ParseBuffer::<'_>::is_empty$", r"ParseBuffer::is_empty$") and not b.is_cleanup(blk):
-                    t.join = blk
+            t.join = first_joins(b, 0)
+            t.join = min(t.join) if t.join else None
         else:
             # join: the block that builds Ok(true)
             for blk in range(b.n):
@@ -204,6 +203,16 @@ def wildcard_summary(table):
     return {"reaches_join": reaches_join, "err_exit": err_exit, "calls": calls, "region": region, "returns_before_join": returns}
 
 
+def first_joins(b, start):
+    """the end-of-list tests (`ParseBuffer::is_empty`) that are reached first from `start`, i.e. without
+    passing another one: the loop's join after a key has been handled"""
+    cands = {blk for blk, term in b.calls()
+             if fn_matches(term, r"ParseBuffer::<'_>::is_empty$", r"ParseBuffer::is_empty$") and not b.is_cleanup(blk)}
+    if not cands:
+        return set()
+    return b.reachable_from([start], stop=lambda x: x in cands) & cands
+
+
 def closure_fallback(table):
     """closure form: what parse() does with the closure's result.
     Returns dict(no_error_exit, skip_on_every_non_true_path, has_success_path)."""
@@ -212,17 +221,14 @@ def closure_fallback(table):
         return None
     call = pb.term(table.closure_call)
     res = call["dst"]["l"]
-    join = None
-    for blk, term in pb.calls():
-        if fn_matches(term, r"ParseBuffer::<'_>::is_empty$", r"ParseBuffer::is_empty$") and not pb.is_cleanup(blk):
-            join = blk
-    if join is None:
-        return None
     start = call["target"]
-    region = pb.reachable_from([start], stop=lambda x: x == join)
+    joins = first_joins(pb, start)
+    if not joins:
+        return None
+    region = pb.reachable_from([start], stop=lambda x: x in joins)
     region = {x for x in region if not pb.is_cleanup(x)}
     err_exit = False
-    for x in region - {join}:
+    for x in region - joins:
         if pb.term(x)["k"] == "return":
             err_exit = True
         for st in pb.stmts(x):
@@ -245,7 +251,7 @@ def closure_fallback(table):
         if key in seen:
             continue
         seen.add(key)
-        if blk == join:
+        if blk in joins:
             outcomes.add((ok_true, skipped))
             continue
         if pb.is_cleanup(blk):
